@@ -64,7 +64,8 @@ Dup(h, k, how) == /\ InUse(h) /\ k # h /\ (k = Succ(h) \/ ~InUse(k))
                   /\ obj' = [obj EXCEPT ![k] = obj[h]]
                   /\ last' = <<"dup", h, k, how>> /\ tol' = [tol EXCEPT ![k] = tol[h]]
 \* override_tolerance: a customised tolerance travels with copies and pickles and is never shared
-SetTol(h) == /\ Kind = "sim" /\ InUse(h)
+\* (for a Sequential model the same handle attribute stands for the order of its equations: the action is reorder_equations)
+SetTol(h) == /\ Kind \in {"sim", "seq"} /\ InUse(h)
              /\ tol' = [tol EXCEPT ![h] = (tol[h] % 2) + 1] /\ obj' = obj /\ last' = <<"tol", h, (tol[h] % 2) + 1>>
 
 Next == \/ \E h \in Handles, w \in 0..MaxVariants, nm \in {"g", "rho"} : Assign(h, w, nm)
